@@ -65,19 +65,32 @@ func C05(p *core.Program, r *core.Report) {
 	}
 
 	// ---- S2
-	pkg := p.AllPkgs[core.ExpandKey(domutilPkg)]
-	if pkg == nil {
-		r.Undecided("S2", "package domutil", "not loaded")
-	} else {
-		keys, _ := core.MapLiteralKeys(pkg, "allowedAttributes")
-		var bad []string
-		for _, k := range keys {
-			if strings.HasPrefix(strings.ToLower(k), "on") || k == "style" && false {
-				bad = append(bad, k)
+	// the allow-list is whatever fixed table StripAttributes looks the attribute key up in
+	// (private tables are rendered by content, so the table may be renamed or moved)
+	if sa := mustInl(p, r, "S2", stripKey); sa != nil {
+		c := core.NewCanon(p)
+		var tables []string
+		for _, in := range instrsOf(sa) {
+			if lk, ok := in.(*ssa.Lookup); ok {
+				// the lookup keyed by the attribute name (other tables are keyed by the tag)
+				if s := c.Of(lk.X); (strings.HasPrefix(s, "set‹") || strings.HasPrefix(s, "map‹")) && strings.HasSuffix(c.Of(lk.Index), ".Key") {
+					tables = append(tables, s)
+				}
 			}
 		}
-		r.Add("S2", "allow-list contains no event handler attribute", "", len(keys) > 150 && len(bad) == 0, fmt.Sprintf("%d allowed attributes; on*: %v", len(keys), bad))
-		r.Stats["allowed_attributes"] = len(keys)
+		if len(tables) != 1 {
+			r.Undecided("S2", "StripAttributes: the allow-list", fmt.Sprintf("expected one lookup in a fixed table, found %d", len(tables)))
+		} else {
+			keys := tableKeys(tables[0])
+			var bad []string
+			for _, k := range keys {
+				if strings.HasPrefix(strings.ToLower(k), "on") {
+					bad = append(bad, k)
+				}
+			}
+			r.Add("S2", "allow-list contains no event handler attribute", "", len(keys) > 150 && len(bad) == 0, fmt.Sprintf("%d allowed attributes; on*: %v", len(keys), bad))
+			r.Stats["allowed_attributes"] = len(keys)
+		}
 	}
 	if sa := mustInl(p, r, "S2", stripKey); sa != nil {
 		// the per-attribute decision: one iteration of the loop that tests the attribute key
@@ -133,10 +146,7 @@ func C05(p *core.Program, r *core.Report) {
 				if strings.HasPrefix(s, `append(dom.GetElementsByTagName($0,"*"),{$0})`) {
 					self = true
 				}
-				if strings.HasPrefix(s, "domutil.allowedAttributes[") || strings.HasPrefix(s, "lookup(domutil.allowedAttributes") {
-					allowTest = true
-				}
-				if lk, ok := in.(*ssa.Lookup); ok && c.Of(lk.X) == "domutil.allowedAttributes" {
+				if lk, ok := in.(*ssa.Lookup); ok && strings.HasPrefix(c.Of(lk.X), "set‹") && strings.HasSuffix(c.Of(lk.Index), ".Key") {
 					allowTest = true
 				}
 			}
@@ -226,21 +236,24 @@ func checkOutputNodesGate(p *core.Program, r *core.Report, rule string) {
 func checkWholesaleCopies(p *core.Program, r *core.Report, rule string) {
 	// reviewed by the expression that is copied (the function it sits in may be renamed or split)
 	reviewed := map[string]string{
-		"webdoc.Image: $0.Element": "deep clone of an img/picture element; the extractor removed everything but img/source from pictures (processPicture), an img has no children",
+		"webdoc.Image: $0.Element":        "deep clone of an img/picture element; the extractor removed everything but img/source from pictures (processPicture), an img has no children",
+		"webdoc.Figure: $0.Image.Element": "the embedded Image of a Figure: same element, same reason",
 	}
 	c := core.NewCanon(p)
 	n := 0
-	for _, fn := range p.ModFunctions(false) {
+	done := map[string]bool{}
+	// units: a copy made inside an unexported helper is judged in each exported caller
+	for _, u := range units(p) {
+		fn := p.Original(u)
 		pp := core.FnPkgPath(fn)
 		if pp != core.ExpandKey(webdocPkg) && pp != core.ExpandKey(domutilPkg) {
 			continue
 		}
-		for _, call := range core.Calls(fn, func(ci ssa.CallInstruction) bool { return core.IsCallTo(ci, "github.com/go-shiori/dom.Clone") }) {
+		for _, call := range core.Calls(u, func(ci ssa.CallInstruction) bool { return core.IsCallTo(ci, "github.com/go-shiori/dom.Clone") }) {
 			deep, isC := core.ConstBool(call.Common().Args[1])
 			if isC && !deep {
 				continue
 			}
-			n++
 			key := "func " + fn.Name()
 			if recv := fn.Signature.Recv(); recv != nil {
 				if nt := core.NamedOf(recv.Type()); nt != nil {
@@ -248,6 +261,11 @@ func checkWholesaleCopies(p *core.Program, r *core.Report, rule string) {
 				}
 			}
 			key += ": " + c.Of(call.Common().Args[0])
+			if done[key+p.Pos(call.Pos())] {
+				continue
+			}
+			done[key+p.Pos(call.Pos())] = true
+			n++
 			reason, ok := reviewed[key]
 			r.Add(rule, "deep copy of source nodes: "+key, p.Pos(call.Pos()), ok, "dom.Clone("+c.Of(call.Common().Args[0])+", true) in "+core.ShortKey(fn)+" bypasses the visibility/script gate; reviewed: "+reason)
 		}
